@@ -32,6 +32,13 @@ func main() {
 		prepare(os.Args[2:])
 	case "eval":
 		eval(os.Args[2:])
+	case "textprobe": // debug: vh textprobe <run> <repo> <tier> <seed>
+		var seed int64
+		fmt.Sscan(os.Args[5], &seed)
+		e := &pipeline.Env{Run: os.Args[2], Repo: os.Args[3]}
+		os.MkdirAll(filepath.Join(e.Run, "bin"), 0o755)
+		n, err := pipeline.TextProbe(e, os.Args[4], seed)
+		fmt.Println(n, err)
 	default:
 		die("unknown command %s", os.Args[1])
 	}
@@ -102,6 +109,11 @@ func prepare(args []string) {
 		die("%v", err)
 	}
 	timing["tools"] = pipeline.Since(t0)
+	tt := time.Now()
+	if _, err := pipeline.TextProbe(e, *tier, *seed); err != nil {
+		fmt.Fprintf(os.Stderr, "text probe: %v\n", err)
+	}
+	timing["textprobe"] = pipeline.Since(tt)
 	progs := corpus.All(*tier, *seed)
 	if *only != "" {
 		keep := map[string]bool{}
